@@ -9,15 +9,17 @@ META = dict(
         quick="Policy/AsyncPolicy call+execute (and RetryPolicy sugar) with a retry component and a spy breaker: 2 "
               "consecutive calls per policy object, the first with N=3 scripted attempts (later calls: 1) over success, {TRANSIENT, PERMANENT} x "
               "{exception, result}, AbortRetryError, CancelledError; symbolic max_attempts, abort_if answers, sleep-handler "
-              "decisions (SLEEP/DEFER/ABORT); async: CancelledError thrown at a solver-chosen await point",
+              "decisions (SLEEP/DEFER/ABORT); async: CancelledError thrown at a solver-chosen await point; Policy/AsyncPolicy "
+              "without retry: 5 outcome kinds x attempt hook raising (start/end; ValueError, AbortRetryError, "
+              "KeyboardInterrupt): exactly one record",
         thorough="N=4, 3 calls",
     ),
     assumptions=["the spy admits every call (admission logic is C07's subject)",
                  "exits through GeneratorExit, nested policy errors and raising callbacks are C08's subject"],
-    outside=["attempt_timeout_s", "Policy without retry component (single attempt: covered by C08/C11 harnesses)"],
+    outside=["attempt_timeout_s"],
 )
 GOALS = ["success_after_retries", "failure_exc", "failure_res", "failure_scheduled", "cancel_abort_poll", "cancel_abort_handler",
-         "cancel_abort_op", "cancel_cancelled", "cancel_at_await", "second_call"]
+         "cancel_abort_op", "cancel_cancelled", "cancel_at_await", "second_call", "noretry_one_record"]
 
 
 def h_run(sym, params):
@@ -91,6 +93,66 @@ def check_records(w, trace, result, sym, injected):
     return None
 
 
+def h_noretry(sym, params):
+    """Policy without a retry component: still exactly one record per admitted call, even when an attempt hook raises."""
+    from rv import env
+    from rv.world import Fail, Res, EC
+    from redress import Policy, AsyncPolicy, AbortRetryError
+
+    is_async, meth = params["async"], params["meth"]
+    kind = sym.choice("kind", ["ok", "exc", "abort_exc", "cancelled", "kbd"])
+    hook = sym.choice("hook_fault", ["none", "start", "end"])
+    hexc = sym.choice("hook_exc", [ValueError, AbortRetryError, KeyboardInterrupt]) if hook != "none" else None
+    clock = env.Clock(0)
+
+    class W:
+        trace = []
+
+        def t(self, ev):
+            self.trace.append(ev)
+    w = W()
+    w.trace = []
+    br = SpyBreaker(w, None)
+
+    def body():
+        if kind == "ok":
+            return Res(1, None)
+        raise {"exc": lambda: Fail(1, EC.TRANSIENT), "abort_exc": AbortRetryError, "cancelled": asyncio.CancelledError,
+               "kbd": KeyboardInterrupt}[kind]()
+
+    async def abody():
+        await env.Suspend()
+        return body()
+
+    def on_start(ctx):
+        if hook == "start":
+            raise hexc()
+
+    def on_end(ctx):
+        if hook == "end":
+            raise hexc()
+    with env.patched(clock):
+        pol = (AsyncPolicy if is_async else Policy)(circuit_breaker=br)
+        try:
+            if is_async:
+                env.drive(getattr(pol, meth)(abody, on_attempt_start=on_start, on_attempt_end=on_end))
+            else:
+                getattr(pol, meth)(body, on_attempt_start=on_start, on_attempt_end=on_end)
+        except BaseException as e:
+            if type(e).__module__.startswith("crosshair"):
+                raise
+    recs = [e for e in w.trace if e[0] != "br.allow"]
+    if len(recs) != 1:
+        return (f"noretry:record_count", f"{'a' if is_async else ''}policy.{meth} without retry, op {kind}, hook {hook} raising "
+                                         f"{getattr(hexc, '__name__', None)}: {len(recs)} breaker records {recs}")
+    if hook == "none":
+        exp = {"ok": ("br.success",), "exc": ("br.failure", EC.TRANSIENT)}.get(kind, ("br.cancel",))
+        if recs[0][0] != exp[0]:
+            return ("noretry:wrong_record", f"op {kind}: breaker was told {recs[0]}, expected {exp[0]}")
+    sym.cover("noretry_one_record")
+    return None
+
+
 def jobs(tier):
     q = tier == "quick"
     N = 3 if q else 4
@@ -104,4 +166,8 @@ def jobs(tier):
                             params=dict(entry=entry, N=N, kinds=kinds, classes=["TRANSIENT", "PERMANENT"], handler=True,
                                         abort=True, hooks=False, calls=2 if q else 3, N_later=1, pin={"o1": o1}, maxk=3 * N + 1),
                             max_wall_s=wall, weight=3 if o1 in (1, 2) else 1))
+    for a in (False, True):
+        for meth in ("call", "execute"):
+            out.append(dict(name=f"noretry:{'a' if a else ''}policy.{meth}", harness="rv.props.c09:h_noretry",
+                            params={"async": a, "meth": meth}, max_wall_s=wall))
     return out
